@@ -936,6 +936,25 @@ func oddKeys(r *vh.RNG) {
 	k = hdkeychain.NewExtendedKey(nets[0].HDPrivateKeyID[:], nil, r.Bytes(32), r.Bytes(4), 1, 1, true)
 	cases.Add(fmt.Sprintf("Str no_oracle %s %s", coqKey(k.VerifFields()), vh.CoqStr(k.String())), map[string]interface{}{"op": "String(empty key)"})
 
+	// String is a plain concatenation of whatever the fields hold (NewExtendedKey performs no checks): fields of
+	// unusual lengths, depth / child number at the top of their ranges
+	for _, sh := range []struct{ v, f, c int }{{3, 4, 32}, {5, 4, 32}, {4, 3, 32}, {4, 5, 32}, {4, 4, 31}, {4, 4, 33}, {0, 0, 0}, {4, 4, 32}} {
+		for _, priv := range []bool{true, false} {
+			key := r.Bytes(32)
+			if !priv {
+				key = good33(r)
+			}
+			k := hdkeychain.NewExtendedKey(r.Bytes(sh.v), key, r.Bytes(sh.c), r.Bytes(sh.f), 255, 0xffffffff, priv)
+			if p, _ := vh.Catch(func() { _ = k.String() }); p {
+				continue
+			}
+			o := hdref.NewOracle()
+			pubOracle(o, k.VerifFields())
+			cases.Add(fmt.Sprintf("Str %s %s %s", o.Coq(), coqKey(k.VerifFields()), vh.CoqStr(k.String())),
+				map[string]interface{}{"op": "String(fields of unusual lengths)", "version_len": sh.v, "fp_len": sh.f, "chain_len": sh.c, "private": priv})
+		}
+	}
+
 	// paddedAppend, IsForNet, SetNet
 	for size := 0; size <= 34; size += 2 {
 		for _, l := range []int{0, 1, 31, 32, 33} {
